@@ -7,6 +7,7 @@ from pycaption import (CaptionSet, CaptionList, Caption, CaptionNode, DFXPReader
                        WebVTTWriter, SRTReader, WebVTTReader, MicroDVDReader, SCCReader)
 from pycaption.base import CaptionSet as CS
 from pycaption.dfxp.extras import LegacyDFXPWriter
+from pycaption.geometry import Layout, Point, Size, UnitEnum
 from pycaption.sami import SAMIParser
 from pyvc.verify import Raised
 from props import samples
@@ -86,11 +87,13 @@ def texts_of(cs):
 
 
 SHARED_WRITERS = {}
+SHARED_READERS = {}        # one reader object for every document of the run: what a read returns depends on the document only
 
 
 def bounded(ctx, b):
     rng = random.Random(ctx.seed)
     SHARED_WRITERS.update({"sami": SAMIWriter(), "dfxp": DFXPWriter()})
+    SHARED_READERS.update({"sami": SAMIReader(), "dfxp": DFXPReader()})
     n = 150 if not ctx.thorough else 3000
     for i in range(n):
         langs, cs = gen_set(rng, rng.choice([1, 2, 3, 4]))
@@ -105,7 +108,7 @@ def bounded(ctx, b):
             exp = {l: [(s // 1000 * 1000, t) for s, t in want[l]] for l in langs if want[l]}
             if got != exp:
                 return False, {"paragraphs_per_language": got, "expected": exp, "doc": doc[-900:]}
-            back = SAMIReader().read(doc)
+            back = SHARED_READERS["sami"].read(doc)
             bl = back.get_languages()
             first_seen = []
             for s, l in sorted((c_[0], l) for l in langs for c_ in want[l][:1]):
@@ -132,7 +135,7 @@ def bounded(ctx, b):
             nonempty = [l for l in langs if want[l]]
             if not nonempty:
                 return True, None
-            back = DFXPReader().read(doc)
+            back = SHARED_READERS["dfxp"].read(doc)
             return (back.get_languages() == langs and {l: [t for _, t in texts_of(back)[l]] for l in langs} == {l: [t for _, t in want[l]] for l in langs}), \
                 {"read_back_languages": back.get_languages(), "read_back": texts_of(back)}
         b.guard(("dfxp", i), dfxp_out, sample={"format": "dfxp", "languages": langs})
@@ -144,6 +147,9 @@ def bounded(ctx, b):
             ok = d["langs"] == [pick] and [cu["lines"][0] for cu in d["cues"][pick]] == [t for _, t in want[pick]]
             d2 = parsers.parse_dfxp(LegacyDFXPWriter().write(cs, force=pick))
             ok = ok and d2["langs"] == [pick]
+            from pycaption.dfxp import SinglePositioningDFXPWriter
+            d3 = parsers.parse_dfxp(SinglePositioningDFXPWriter(Layout(origin=Point(Size(10, UnitEnum.PERCENT), Size(20, UnitEnum.PERCENT)))).write(cs, force=pick))
+            ok = ok and d3["langs"] == [pick] and [cu["lines"][0] for cu in d3["cues"][pick]] == [t for _, t in want[pick]]
             # WebVTT lang= writes exactly the named language: its cues, or none when it has none / is absent
             v = parsers.parse_webvtt(WebVTTWriter().write(cs, lang=pick))
             ok = ok and [cu["lines"][0] for cu in v] == [t for _, t in want[pick]]
@@ -177,7 +183,7 @@ def bounded(ctx, b):
             ps = "".join(f'<SYNC start="{(k + 1) * 1000}"><P class="{c}">{c}</P></SYNC>' for k, c in enumerate(order))
             doc = ('<SAMI><HEAD><STYLE TYPE="text/css"><!-- .ENCC {Name: E; lang: en-US;} .FRCC {Name: F; lang: fr-FR;} '
                    '.DECC {Name: D; lang: de-DE;} --></STYLE></HEAD><BODY>' + ps + "</BODY></SAMI>")
-            got = SAMIReader().read(doc).get_languages()
+            got = SHARED_READERS["sami"].read(doc).get_languages()
             return got == [cls2lang[c] for c in order], {"languages": got, "expected": [cls2lang[c] for c in order]}
         b.guard(("sami-order", order), so, sample={"order_of_first_appearance": order})
 
